@@ -127,10 +127,10 @@ PROPS = {
     "C06": {
         "units": ["U3_paths", "U12_extract"],
         "kani": [],
-        "technique": "Verus contract on the real enclosed_name over an uninterpreted component walk + containment lemma",
-        "level_text": "Deductive proof for every entry name and for ANY behaviour of std::path::Components (left uninterpreted): enclosed_name returns Some exactly when the name has no NUL, no prefix/root component and its running depth never goes negative, and then returns the name itself; a checked lemma shows that such a component list joined onto any base directory keeps that base as a prefix at every step of lexical resolution.",
-        "level_note": "std::path is assumed only to the extent that Path::new(name).components() yields some component sequence; mangled_name (file_name_sanitized: find/replace/filter/fold over std iterator adapters) is not under contract and is listed as undecided; ZipFile::enclosed_name and ZipStreamFileMetadata::enclosed_name delegation is proved in unit U12",
-        "undecided": ["mangled_name / file_name_sanitized (std iterator adapters and string slicing; DESIGN.md section 5 C06)", "ZipFile::mangled_name delegation"],
+        "technique": "Verus contracts on the real enclosed_name and file_name_sanitized over an uninterpreted component walk (closures specified through call_ensures, fold by induction) + containment lemmas",
+        "level_text": "Deductive proof for every entry name and for ANY behaviour of std::path::Components (left uninterpreted): enclosed_name returns Some exactly when the name has no NUL, no prefix/root component and its running depth never goes negative, and then returns the name itself; file_name_sanitized (mangled_name) returns a path built, by pushes only, from exactly the ordinary components - in order - of the component walk of the name cut at its first NUL with backslashes read as separators (induction over the fold relation of the real filter/fold closures); checked lemmas show that either result joined onto any base directory keeps that base as a prefix at every step of lexical resolution; the four public accessors on ZipFile / ZipStreamFileMetadata are proved to delegate.",
+        "level_note": "std::path is assumed only to the extent that Path::new(name).components() yields some component sequence and PathBuf::new/push build a path from ordinary components; the std string operations of the sanitiser (find, slicing at the found offset, replace of one character, to_string) and Iterator::filter/fold are assumed contracts (shims/str_ops.rs, shims/path.rs), the two closures are verified as written with added type/ensures annotations (T12); host semantics: unix (MAIN_SEPARATOR = '/')",
+        "undecided": [],
     },
     "C07": {
         "units": ["U3_paths", "U12_extract"],
